@@ -1,8 +1,32 @@
 CFG = dict(
     id="C07", props="Props/C07.v", harness="c07",
     shims=["c2--c07.go", "c2__transform--c07.go", "data__crypto--c07.go"],
-    trusted_base=[],
-    assumptions=[],
-    level_text="bootstrap",
-    level_note="bootstrap",
+    trusted_base=[
+        "compress/zlib and compress/gzip (Writer then Reader return the input): Section hypotheses zlib_ok, gzip_ok of C07_profile_stack_roundtrip / C07_full_path_roundtrip; sampled by the Go-side oracle only",
+        "crypto/aes: the block function fills a block with bytes (hypothesis aes_bytes; no inverse is needed, CFB only encrypts); crypto/cipher's CFB stream and cipher.StreamWriter/StreamReader are modelled as cfb_enc/cfb_dec and compared byte for byte for XOR, oracle only for AES",
+        "encoding/hex and encoding/base64 streaming encoders/decoders are modelled as whole-input functions; their independence from write/read chunking is sampled, not proved",
+        "the packet codec (com.Packet Marshal/Unmarshal) is property C01: hypotheses marshal_bytes, unmarshal_marshal of C07_full_path_roundtrip",
+        "CBK key arithmetic (adjust, blockIndex, cipherTable, the Shuffle case analysis) is not re-derived: table bytes, shuffle offsets and the six (g,h) pairs are read from the real code through the shim data__crypto--c07.go (the g/h expressions are repeated there verbatim) and fed to the model; the theorems hold for every table, every offsets and all g,h < 8",
+        "the 4096-byte staging buffer of the DNS encoder is not modelled (a name of more than 1919 encoded bytes makes the real Write fail with io.ErrShortWrite; a profile carries at most 255 bytes)",
+    ],
+    assumptions=[
+        "payloads, keys and domains are byte strings; keys are non-empty (XOR key, AES IV); CBK block size in 16..255 (the code allows 16, 32, 64, 128)",
+        "CBK step constants g, h < 8 (the code computes them mod 8); keys whose schedule panics in the real code are the recorded finding",
+        "Device IDs of generated packets have a non-zero first byte (device.ID.Read rejects others: the packet codec's domain, C01)",
+    ],
+    level_text="Seventeen theorems over the Gallina models of cfg.MultiWrapper (stack order), hex, base64, the B64 shift transform, CFB over ANY block "
+               "function (XOR, AES), the CBK cipher (substitution table, nibble mix incl. overlapping pairs - all 56 (g,h) with universally quantified bytes -, "
+               "pair swap, shuffle, size+1 framing with count byte, block counter, the writer's buffering) and the DNS framing (labels, 12-byte header, "
+               "segments of <= 256 in packets of <= 2048, both roles): every element, every stack (induction on the list), every transform and the full "
+               "writePacket/readPacket path are the identity for ALL payloads, keys, shifts, domains, random draws and - for CBK - all sequences of Write calls. "
+               "zlib, gzip, the AES block and the packet codec enter as hypotheses in the statements. The models are tied to /repo on every run: ~3700 cases "
+               "(stacks of depth 0..4, 7 element kinds, 4 transform kinds, lengths around block sizes and the DNS 256/2048 limits up to 64 KiB, write/reader/consumer "
+               "chunkings whole/1/7/block-1/block/block+1/random with zero-length writes) run through the real code with exact-equality oracle; the wire bytes of "
+               "every stack/transform made of modelled elements, the CBK block functions and the CBK writer (same Write sequence) are recomputed by the model inside Coq.",
+    level_note="Proof is about the model; the tie to the code is differential (its strength is that of the generator, distribution in the evidence). "
+               "Chunking independence is proved for CBK's own buffering only; for the stdlib stream adapters (hex, base64, cipher.StreamWriter/Reader, zlib, gzip) "
+               "it is sampled. One defect repaired (DNS labels, commit facc2eb), one recorded as known finding (CBK key schedule divide by zero). No axioms.",
+    partial="write/read chunking independence of the stdlib stream adapters (encoding/hex, encoding/base64, crypto/cipher StreamWriter/StreamReader, "
+            "compress/*) and of the CBK reader's Read buffering is sampled by the oracle, not proved; it is proved for the CBK writer's buffering "
+            "(any sequence of Write calls)",
 )
